@@ -112,10 +112,15 @@ func NameIn(name string, pats ...string) bool {
 // Walk visits the nodes of f's own body, not descending into nested function literals
 // (the literal node itself is visited).
 func (f *Func) Walk(fn func(n ast.Node) bool) {
+	f.walkUnit(fn, map[*Func]bool{})
+}
+
+func (f *Func) walkUnit(fn func(n ast.Node) bool, seen map[*Func]bool) {
 	walkOwn(f.Body, fn)
 	for _, s := range f.inlined {
-		if !s.spawned {
-			s.h.Walk(fn)
+		if !s.spawned && !seen[s.h] {
+			seen[s.h] = true
+			s.h.walkUnit(fn, seen)
 		}
 	}
 }
@@ -143,7 +148,12 @@ func (f *Func) WalkDeep(fn func(n ast.Node) bool) {
 		}
 		return fn(n)
 	})
+	seen := map[*Func]bool{}
 	for _, s := range f.allInlineSites() {
+		if seen[s.h] {
+			continue
+		}
+		seen[s.h] = true
 		ast.Inspect(s.h.Body, func(n ast.Node) bool {
 			if n == nil {
 				return true
